@@ -211,6 +211,9 @@ func checkC02(P *Prog, r *Result) {
 	shareRule(P, r, checkC10, "C10/path-writers", nil, "C02/issue-path", 4)
 	shareRule(P, r, checkC07, "C07/reinit", func(o Obligation) bool { return strings.Contains(o.Construct, "#zog/internals.SchemaCtx.") }, "C02/issue-path", 8)
 	shareRule(P, r, checkC03, "C03/struct-writes-by-field", nil, "C02/issue-path", 10)
+	// an issue object belongs to one report: an issue released to the pool twice is handed to two later
+	// violations, one of which then shows the other's code and path (C07's release-multiplicity rule)
+	shareRule(P, r, checkC07, "C07/release-multiplicity", nil, "C02/issue-object-unique", 1)
 	// ---- nil-iff-empty ----
 	P.checkNilIffEmpty(r)
 	// ---- a failure is never swallowed by a flag left behind, nor suppressed by an unrelated earlier issue ----
